@@ -131,14 +131,26 @@ func c14(c *Ctx) {
 		r.Infof("STRUCT.stale: no reader/writer closure pair found in H265Payloader.Payload; rule not decided")
 	}
 	na := 0
+	restructured := false
 	for _, nme := range []string{"codecs.(*H265AggregationPacket).Unmarshal", "codecs.(*H265SingleNALUnitPacket).Unmarshal", "codecs.(*H265FragmentationUnitPacket).Unmarshal", "codecs.(*H265PACIPacket).Unmarshal"} {
 		if f := p.Func(nme); f != nil {
-			na += loopAliasRule(c, f)
+			for _, g := range scopeOf(f) {
+				na += loopAliasRule(c, g)
+			}
+			if len(newHelpers(f)) > 0 {
+				restructured = true
+			}
 		} else {
 			missingAnchor(r, nme)
 		}
 	}
-	r.Floor("per-element pointers into loop variables (DOND)", na, 1)
+	if na == 0 && restructured {
+		// the per-unit pointer is no longer the address of a local stored in the loop (units built by a helper or
+		// by struct literals): nothing for the rule to look at
+		r.Infof("STRUCT.loopalias: no address of a local is stored per element in the restructured parsers: not decided")
+	} else {
+		r.Floor("per-element pointers into loop variables (DOND)", na, 1)
+	}
 	var entries []*ssa.Function
 	// the per-form parsers are exported types of their own: they are analysed standalone as well as below
 	// H265Packet.Unmarshal (whose length check makes their own first guard redundant in that context)
